@@ -46,25 +46,29 @@ def quickEquivalenceTest (q : GhQ) (c : Two) : (Bool × Bool) × Two :=
     else ((false, q.qf), c)
   else ((false, false), c)
 
-/-- `x.is_included_in(y)` with `x = c.x`, `y = c.y` when `swap = false`; roles exchanged when `swap = true`. -/
-def isIncludedIn (gx gy : Gh) (swap : Bool) (c : Two) : Two :=
-  let onA := if swap then onYb else onXb
-  let onB := if swap then onX else onY
-  let getA := fun (c : Two) => if swap then c.gy else c.x
-  let getB := fun (c : Two) => if swap then c.x else c.gy
-  let ga := if swap then gy else gx
-  let gb := if swap then gx else gy
-  -- `x' cannot have pending constraints, because we need its generators.
-  let r : Bool × Two := if (getA c).cpend then onA (processPendingConstraints ga) c else (true, c)
+/-- exchange the roles of the two objects (`y.f(x)`). -/
+def Two.swap (c : Two) : Two := if c.al then c else { c with x := c.y, y := c.x }
+
+/-- `x.is_included_in(y)`, first statement: "`x` cannot have pending constraints, because we need its generators". -/
+def inclA1 (ga : Gh) (c : Two) : Bool × Two :=
+  onXb (fun x => if x.cpend then processPendingConstraints ga x else (true, x)) c
+/-- "`y` cannot have pending generators, because we need its constraints". -/
+def inclB1 (gb : Gh) (c : Two) : Two :=
+  onY (fun y => if y.gpend then processPendingGenerators gb y else y) c
+/-- `if (!x.generators_are_up_to_date() && !x.update_generators()) return true;` -/
+def inclA2 (ga : Gh) (c : Two) : Bool × Two :=
+  onXb (fun x => if !x.gup then updateGenerators ga x else (true, x)) c
+/-- `if (!y.constraints_are_up_to_date()) y.update_constraints();` -/
+def inclB2 (gb : Gh) (c : Two) : Two :=
+  onY (fun y => if !y.cup then updateConstraints gb y else y) c
+
+/-- `x.is_included_in(y)` (`x = c.x`, `y = c.y`; for `y.is_included_in(x)` the caller swaps the roles). -/
+def isIncludedIn (ga gb : Gh) (c : Two) : Two :=
+  let r := inclA1 ga c
   if !r.1 then r.2
   else
-    let c := r.2
-    let c := if (getB c).gpend then onB (processPendingGenerators gb) c else c
-    let r : Bool × Two := if !(getA c).gup then onA (updateGenerators ga) c else (true, c)
-    if !r.1 then r.2
-    else
-      let c := r.2
-      if !(getB c).cup then onB (updateConstraints gb) c else c
+    let r := inclA2 ga (inclB1 gb r.2)
+    if !r.1 then r.2 else inclB2 gb r.2
 
 /-- `x.contains(y)`. -/
 def contains (gx gy : Gh) (q : GhQ) (c : Two) : Two :=
@@ -73,7 +77,7 @@ def contains (gx gy : Gh) (q : GhQ) (c : Two) : Two :=
   else if c.gy.dim == 0 then c
   else
     let r := quickEquivalenceTest q c
-    if r.1.1 then r.2 else isIncludedIn gx gy true r.2
+    if r.1.1 then r.2 else (isIncludedIn gy gx r.2.swap).swap
 
 /-- Ghost inputs of one step of a binary method. -/
 structure Gh2 where
@@ -89,9 +93,6 @@ def runSteps2 : List Step2 → List Gh2 → Two → Two
   | f :: fs, [], c => runSteps2 fs [] (f {} c)
   | f :: fs, g :: gs, c => runSteps2 fs gs (f g c)
 
-/-- exchange the roles of the two objects (`y.contains(x)`). -/
-def Two.swap (c : Two) : Two := if c.al then c else { c with x := c.y, y := c.x }
-
 /-- `x.strictly_contains(y)`: `x.contains(y) && !y.contains(x)`; `gx.aux` (second step): the first call answered `true`. -/
 def strictlyContainsSteps : List Step2 :=
   [fun h c => contains h.gx h.gy h.q c,
@@ -105,12 +106,12 @@ def equalsHead (h : Gh2) (c : Two) : Two :=
   else
     let r := quickEquivalenceTest h.q c
     if r.1.1 || r.1.2 then { r.2 with go := false }
-    else { isIncludedIn h.gx h.gy false r.2 with go := true }
+    else { isIncludedIn h.gx h.gy r.2 with go := true }
 
 /-- the rest of `operator==`; `gx.aux`: `x.is_included_in(y)` answered `true`. -/
 def equalsTail (h : Gh2) (c : Two) : Two :=
   if c.go && h.gx.aux then
-    if c.x.em then (onYb (isEmpty h.gy) c).2 else isIncludedIn h.gx h.gy true c
+    if c.x.em then (onYb (isEmpty h.gy) c).2 else (isIncludedIn h.gy h.gx c.swap).swap
   else c
 
 def equalsSteps : List Step2 := [equalsHead, equalsTail]
@@ -124,13 +125,9 @@ def intersectionAssign (gx gy : Gh) (c : Two) : Two :=
     let c := onX (needCons gx) c
     let c := onY (needCons gy) c
     let y := c.gy
-    onX (fun x =>
-      let x := setChanges gx.be x
-      if x.canHaveSomethingPending then setConstraintsPending (conInsertPending x)
-      else
-        -- merge_rows_assign if both are fully sorted, insert otherwise
-        let x := conInsert (y.csS && !y.cpend) x
-        clearConstraintsMinimized (clearGeneratorsUpToDate x)) c
+    -- pending if possible; else `merge_rows_assign` if both are fully sorted, `insert` otherwise:
+    -- the sorted flag survives exactly when `y.con_sys` is sorted and has no pending rows
+    onX (insertCons { gx with keep := y.csS && !y.cpend }) c
 
 /-- `x = y` inside a binary method (`y` is not `x`: the aliased call returned earlier). -/
 def assignFromY (c : Two) : Two := if c.al then c else onX (fun x => assign x c.y) c
@@ -149,12 +146,7 @@ def polyHullAssign (gx gy : Gh) (c : Two) : Two :=
       else
         let c := r.2
         let y := c.gy
-        onX (fun x =>
-          let x := setChanges false x
-          if x.canHaveSomethingPending then setGeneratorsPending (genInsertPending x)
-          else
-            let x := genInsert (y.gsS && !y.gpend) x
-            clearGeneratorsMinimized (clearConstraintsUpToDate x)) c
+        onX (insertGens { gx with keep := y.gsS && !y.gpend }) c
 
 /-- `time_elapse_assign(y)`; `gx.aux`: after dropping the origin `gs` has no rows. -/
 def timeElapseAssign (gx gy : Gh) (c : Two) : Two :=
@@ -169,14 +161,10 @@ def timeElapseAssign (gx gy : Gh) (c : Two) : Two :=
       if r.1 then onX (fun x => setEmpty (setChanges true x)) r.2
       else if gx.aux then r.2
       else
+        -- pending if possible; else `sort_rows` on both systems and `merge_rows_assign`
         onX (fun x =>
-          let x := setChanges false x
-          if x.canHaveSomethingPending then setGeneratorsPending (genInsertPending x)
-          else
-            -- sort_rows on both, merge_rows_assign
-            let x := if !x.gsS then genSortRows x else x
-            let x := genInsert true x
-            clearGeneratorsMinimized (clearConstraintsUpToDate x)) r.2
+          if x.canHaveSomethingPending then insertGens gx x
+          else insertGens { gx with keep := true } (if !x.gsS then genSortRows x else x)) r.2
 
 /-- `concatenate_assign(y)`. -/
 def concatenateAssign (gx gy : Gh) (c : Two) : Two :=
@@ -261,7 +249,8 @@ def diffNew0 (x : PState) : PState := ((stSetEmpty (fresh x.nnc)).setDim x.dim).
 
 /-- the loop of `poly_difference_assign`; `its`: the ghost inputs of the iterations that are not skipped. -/
 def diffLoop (its : List (Gh × Gh)) (x : PState) : PState :=
-  its.foldl (fun nw gg => diffIter gg.1 gg.2 x nw) (diffNew0 x)
+  -- (a receiver found empty by `minimize()` is included in every constraint: all iterations are skipped)
+  if x.em then diffNew0 x else its.foldl (fun nw gg => diffIter gg.1 gg.2 x nw) (diffNew0 x)
 
 /-- `poly_difference_assign(y)`. -/
 def polyDifferenceAssign (gx gy : Gh) (q : GhQ) (its : List (Gh × Gh)) (c : Two) : Two :=
